@@ -761,6 +761,19 @@ Fixpoint run (d : dstate) (ops : list wop) : res werr (dstate * list outcome * b
          let '(d2, rs) := x in Ok (d2, r :: rs, alive)
   end.
 
+(* what the caller has seen when an operation panics: the outcomes before it, the vectors so far *)
+Fixpoint run_trace (d : dstate) (ops : list wop) : list outcome * list hvec :=
+  match ops with
+  | [] => ([], d_regs d)
+  | o :: rest =>
+    match step d o with
+    | Ok (d1, r) =>
+      if stops o r then ([r], d_regs d1)
+      else let (rs, g) := run_trace d1 rest in (r :: rs, g)
+    | _ => ([], d_regs d)
+    end
+  end.
+
 Record run_result := mkRR {
   rr_outcomes : list outcome; rr_regs : list hvec;
   rr_final : option (nat * bytes) }.       (* None: the writer was consumed by a failed template *)
@@ -772,6 +785,12 @@ Definition run_writer_gen (fin : writer -> res werr (nat * bytes))
   let '(d, rs) := x in
   if alive then let* f := fin (d_w d) in Ok (mkRR rs (d_regs d) (Some f))
   else Ok (mkRR rs (d_regs d) None).
+
+Definition panic_trace (buf : bytes) (limit : nat) (ops : list wop) : list outcome * list hvec :=
+  match writer_new buf limit with
+  | Ok w0 => run_trace (mkD w0 []) ops
+  | _ => ([], [])
+  end.
 
 Definition run_writer := run_writer_gen finish.
 Definition run_writer_prefix := run_writer_gen finish_prefix.
